@@ -7,8 +7,8 @@
 
     [params_distinct] (the parameters on the in-edges of every node are pairwise distinct) is NOT
     an invariant of [script_ok] scripts; three API call sequences that break it are exhibited below
-    ([params_distinct_refuted_*]).  It is an invariant under the additional guard [pd_guard]
-    ([reachable_params_distinct_partial]). *)
+    ([params_distinct_refuted_*]).  It is an invariant under the additional guard [pd_guard'], every
+    clause of which is read off the call and the model before it ([reachable_params_distinct]). *)
 From Coq Require Import List String Ascii ZArith Arith Bool Lia Permutation.
 From Elfi Require Import Graph.Net Graph.Denote Graph.Edit Proofs.C03_Exec Proofs.C03_Compile
      Proofs.C03_EndToEnd Proofs.C03_Twins Proofs.C03_ModelOk Proofs.C14_Edit Proofs.C14_Become Proofs.C14_Wfsrc
@@ -371,8 +371,9 @@ Proof.
 Qed.
 
 (** every model reachable by a script that also meets [pd_guard] has pairwise distinct in-edge
-    parameters ("partial": the [EAddNode] clause of the guard is checked on the step's result) *)
-Theorem reachable_params_distinct_partial ops ms :
+    parameters (the [EAddNode] clause of this guard is checked on the step's result; superseded by
+    [reachable_params_distinct] below) *)
+Lemma reachable_params_distinct_result_checked ops ms :
   run [empty_net] ops = Ok ms -> script_pd_ok ops = true -> Forall params_distinct ms.
 Proof.
   intros H Hg.
@@ -383,17 +384,214 @@ Proof.
   rewrite Forall_forall in *. intros m Hm. apply params_distinct_of_PD; auto.
 Qed.
 
+(** ---- (2'') the syntactic [EAddNode] clause ---- *)
+(** [Operation(f, p0, ..., pk-1)] with pairwise distinct parent names on a structurally consistent
+    model ([Closed]: no edge points at a name that is not a node yet): the i-th positional parent
+    gets the parameter [PInt i]. *)
+Local Open Scope list_scope.
+Lemma preds_add_edge_new u v p : forall es,
+  ~ In u (map fst (preds es v)) -> preds (add_edge u v p es) v = preds es v ++ [(u, p)].
+Proof.
+  induction es as [|e r IH]; intros Hn.
+  - unfold preds. cbn. rewrite String.eqb_refl. reflexivity.
+  - cbn [add_edge]. destruct (String.eqb u (e_src e) && String.eqb v (e_dst e)) eqn:E.
+    + exfalso. apply andb_true_iff in E. destruct E as [E1 E2]. apply Hn.
+      unfold preds. cbn [filter]. rewrite E2. cbn [map fst]. left. apply String.eqb_eq in E1. now symmetry.
+    + unfold preds in *. cbn [filter] in *. destruct (String.eqb v (e_dst e)) eqn:Ed; cbn [map app] in *.
+      * f_equal. apply IH. intros H. apply Hn. now right.
+      * apply IH. exact Hn.
+Qed.
+
+Lemma insert_parent_length a l : List.length (insert_parent a l) = S (List.length l).
+Proof.
+  induction l as [|b r IH]; simpl; [reflexivity|].
+  destruct (Nat.ltb (fst a) (fst b)); simpl; [reflexivity | now rewrite IH].
+Qed.
+
+Lemma fold_insert_length : forall xs acc,
+  List.length (fold_left (fun acc a => insert_parent a acc) xs acc) = List.length xs + List.length acc.
+Proof. induction xs as [|x r IH]; intros acc; simpl; [reflexivity|]. rewrite IH, insert_parent_length. lia. Qed.
+
+Lemma positional_length : forall (P : list (name * param)) l, map snd P = map PInt l ->
+  List.length (flat_map (fun up : name * param => match snd up with PInt i => [(i, fst up)] | PStr _ => [] end) P)
+  = List.length l.
+Proof.
+  induction P as [|[u p] r IH]; intros [|i l] H; simpl in *; try discriminate; [reflexivity|].
+  inversion H; subst. simpl. f_equal. now apply IH.
+Qed.
+
+Lemma get_parents_length m c l :
+  map snd (preds (s_edges m) c) = map PInt l -> List.length (get_parents m c) = List.length l.
+Proof.
+  intros H. unfold get_parents. rewrite map_length, fold_insert_length. simpl. rewrite Nat.add_0_r.
+  now apply positional_length.
+Qed.
+
+Lemma fold_parents_params n : forall parents done m1 m2,
+  map fst (preds (s_edges m1) n) = done ->
+  map snd (preds (s_edges m1) n) = map PInt (seq 0 (List.length done)) ->
+  NoDup (done ++ parents) ->
+  fold_left (fun r p => do mm <- r; add_edge_m mm p n None) parents (Ok m1) = Ok m2 ->
+  map fst (preds (s_edges m2) n) = done ++ parents
+  /\ map snd (preds (s_edges m2) n) = map PInt (seq 0 (List.length (done ++ parents))).
+Proof.
+  induction parents as [|p l IH]; intros done m1 m2 Hf Hs Hnd H; simpl in H.
+  - inversion H; subst m2. rewrite app_nil_r. auto.
+  - destruct (add_edge_m m1 p n None) as [m1'|e] eqn:Ea; simpl in H.
+    2:{ apply fold_parents_frame in H. destruct H as [? [H _]]. discriminate. }
+    assert (Hp : ~ In p done).
+    { apply NoDup_remove_2 in Hnd. intros Hin. apply Hnd. apply in_or_app. now left. }
+    unfold add_edge_m in Ea.
+    destruct (has n (s_nodes m1)); cbn [negb] in Ea; [|discriminate].
+    destruct (has p (s_nodes m1)); cbn [negb] in Ea; [|discriminate].
+    inversion Ea; subst m1'. clear Ea.
+    replace (done ++ p :: l) with ((done ++ [p]) ++ l) by (rewrite <- app_assoc; reflexivity).
+    refine (IH (done ++ [p]) _ m2 _ _ _ H); cbn [s_edges with_edges].
+    + rewrite preds_add_edge_new, map_app, Hf; [reflexivity | rewrite Hf; exact Hp].
+    + rewrite preds_add_edge_new, map_app, Hs by (rewrite Hf; exact Hp).
+      rewrite (get_parents_length _ _ _ Hs), seq_length, app_length. simpl.
+      rewrite Nat.add_1_r, seq_S, map_app. reflexivity.
+    + rewrite <- app_assoc. exact Hnd.
+Qed.
+
+Theorem add_node_positional_params m h n st parents obs m' :
+  Closed m -> NoDup parents -> step_model m (EAddNode h n st parents obs) = Ok m' ->
+  map fst (preds (s_edges m') n) = parents
+  /\ map snd (preds (s_edges m') n) = map PInt (seq 0 (List.length parents)).
+Proof.
+  intros Hc Hnd H. simpl in H.
+  destruct (add_node m n st) as [m1|] eqn:Ea; simpl in H; [|discriminate].
+  destruct (fold_left _ parents (Ok m1)) as [m2|] eqn:Ef; simpl in H; [|discriminate].
+  assert (He : s_edges m' = s_edges m2) by (inversion H; subst m'; now destruct obs).
+  rewrite He.
+  unfold add_node in Ea. destruct (has n (s_nodes m)) eqn:Eh; [discriminate|]. inversion Ea; subst m1. clear Ea.
+  apply has_false_In in Eh.
+  assert (Hnil : preds (s_edges m) n = []).
+  { destruct (preds (s_edges m) n) as [|[u p] r] eqn:E; [reflexivity|]. exfalso.
+    assert (Hin : In (u, p) (preds (s_edges m) n)) by (rewrite E; now left).
+    apply In_preds in Hin. apply (cl_edges _ Hc) in Hin. destruct Hin as [_ Hd]. apply Eh. exact Hd. }
+  refine (fold_parents_params n parents [] _ m2 _ _ _ Ef); cbn [s_edges with_nodes]; try (rewrite Hnil; reflexivity); auto.
+Qed.
+
+Lemma NoDup_positional k : NoDup (map PInt (seq 0 k)).
+Proof.
+  apply FinFun.Injective_map_NoDup; [|apply seq_NoDup]. intros a b E. now inversion E.
+Qed.
+
+Lemma param_nodup_b_complete l : NoDup l -> param_nodup_b l = true.
+Proof.
+  induction l as [|x r IH]; intros H; [reflexivity|]. inversion H as [|? ? Hx Hr]; subst. simpl.
+  rewrite (IH Hr), andb_true_r. apply negb_true_iff.
+  destruct (existsb (param_eqb x) r) eqn:E; [|reflexivity].
+  apply existsb_exists in E. destruct E as [y [Hy E]]. apply param_eqb_eq in E. subst y. contradiction.
+Qed.
+
+(** The guard, every clause read off the call and the model before it:
+    - [EAddNode h n st parents obs]: the positional parents are pairwise distinct names;
+    - [EAddEdge]: the parameter (explicit, or the next positional index) is not held by another
+      parent of the child;
+    - [EBecome n u]: no self-loop at [n];
+    - [ESetObserved n v]: [n] is a node (the clause of [step_guard]; it keeps the observed dict
+      inside the node set, which [Closed] asks for). *)
+Definition pd_guard' (m : snet) (o : eop) : bool :=
+  match o with
+  | EAddNode _ _ _ parents _ => nodup_b parents
+  | EAddEdge _ p c par => edge_guard m p c par
+  | EBecome _ n _ => negb (pair_in n n (s_edges m))
+  | ESetObserved _ n _ => has n (s_nodes m)
+  | _ => true
+  end.
+
+Lemma pd_guard'_closed m o m' : Closed m -> pd_guard' m o = true -> step_model m o = Ok m' -> Closed m'.
+Proof.
+  intros Hc Hg H. destruct o as [h n st parents obs|h p c par|h n|h n u|h ps|h n v|h|h|h n f b];
+    try (eapply step_model_closed; [exact Hc | | exact H]; reflexivity).
+  - simpl in H. destruct (string_dec n u) as [->|Hnu]; [destruct (update_node_self _ _ _ H)|].
+    exact (become_closed _ _ _ _ Hc H Hnu).
+  - exact (step_model_closed m (ESetObserved h n v) m' Hc Hg H).
+Qed.
+
+(** the syntactic guard implies the result-checked one on a structurally consistent model *)
+Lemma pd_guard'_pd_guard m o m' : Closed m -> pd_guard' m o = true -> step_model m o = Ok m' -> pd_guard m o = true.
+Proof.
+  intros Hc Hg H. destruct o as [h n st parents obs|h p c par|h n|h n u|h ps|h n v|h|h|h n f b];
+    try exact Hg; try reflexivity.
+  cbn [pd_guard pd_guard'] in *. rewrite H. apply param_nodup_b_complete.
+  apply nodup_b_sound in Hg.
+  destruct (add_node_positional_params _ _ _ _ _ _ _ Hc Hg H) as [_ ->]. apply NoDup_positional.
+Qed.
+
+Theorem step_model_PD' m o m' :
+  Closed m -> pd_guard' m o = true -> step_model m o = Ok m' -> PD (s_edges m) -> PD (s_edges m').
+Proof. intros Hc Hg H. apply (step_model_PD m o m'); [eapply pd_guard'_pd_guard; eauto | exact H]. Qed.
+
+Fixpoint pd_guards' (ms : list snet) (ops : list eop) : bool :=
+  match ops with
+  | [] => true
+  | o :: r =>
+      match nth_error ms (handle_of o) with
+      | None => true
+      | Some m => pd_guard' m o && match step ms o with Ok ms' => pd_guards' ms' r | Err _ => true end
+      end
+  end.
+Definition script_pd_ok' (ops : list eop) : bool := pd_guards' [empty_net] ops.
+
+Theorem run_PD' : forall ops ms ms',
+  Forall (fun m => Closed m /\ PD (s_edges m)) ms -> pd_guards' ms ops = true -> run ms ops = Ok ms' ->
+  Forall (fun m => Closed m /\ PD (s_edges m)) ms'.
+Proof.
+  induction ops as [|o r IH]; intros ms ms' Hall Hg H; simpl in H.
+  - inversion H; subst. exact Hall.
+  - destruct (step ms o) as [ms1|] eqn:Es; simpl in H; [|discriminate].
+    cbn [pd_guards'] in Hg. assert (Hs := Es). unfold step in Hs.
+    destruct (nth_error ms (handle_of o)) as [m|] eqn:En; [|discriminate].
+    rewrite Es in Hg. apply andb_true_iff in Hg. destruct Hg as [Hg1 Hg2].
+    destruct (step_model m o) as [m1|] eqn:Em; simpl in Hs; [|discriminate].
+    assert (Hm : Closed m /\ PD (s_edges m)) by (rewrite Forall_forall in Hall; apply Hall; eapply nth_error_In; eauto).
+    destruct Hm as [Hmc Hmp].
+    assert (Hm1 : Closed m1 /\ PD (s_edges m1))
+      by (split; [exact (pd_guard'_closed _ _ _ Hmc Hg1 Em) | exact (step_model_PD' _ _ _ Hmc Hg1 Em Hmp)]).
+    apply (IH ms1 ms'); auto.
+    destruct o; inversion Hs; subst; try (apply Forall_set_nth; assumption);
+      apply Forall_app; split; auto.
+Qed.
+
+(** every model reachable by a script that meets [pd_guard'] has pairwise distinct in-edge parameters *)
+Theorem reachable_params_distinct ops ms :
+  run [empty_net] ops = Ok ms -> script_pd_ok' ops = true -> Forall params_distinct ms.
+Proof.
+  intros H Hg.
+  assert (HP : Forall (fun m => Closed m /\ PD (s_edges m)) ms).
+  { eapply run_PD'; [|exact Hg|exact H]. constructor; [split; [exact Closed_empty | intros c q1 q2 p []]|constructor]. }
+  assert (Huq : Forall (fun m => uniq (s_edges m)) ms).
+  { eapply run_uniq; [|exact H]. constructor; [constructor | constructor]. }
+  rewrite Forall_forall in *. intros m Hm. apply params_distinct_of_PD; auto. now apply HP.
+Qed.
+
 (** the link without the [params_distinct] hypothesis *)
 Theorem scripts_same_model_same_generate_guarded ops1 ops2 ms1 ms2 m1 m2 outs W :
-  run [empty_net] ops1 = Ok ms1 -> script_ok ops1 = true -> script_pd_ok ops1 = true -> In m1 ms1 ->
+  run [empty_net] ops1 = Ok ms1 -> script_ok ops1 = true -> script_pd_ok' ops1 = true -> In m1 ms1 ->
   run [empty_net] ops2 = Ok ms2 -> script_ok ops2 = true -> In m2 ms2 ->
   same_model m1 m2 ->
   NoDup (map fst W) -> (forall k, In k (map fst W) -> ~ In k inames) -> outputs_wf m1 outs ->
   same_result (generate m1 outs W) (generate m2 outs W).
 Proof.
   intros H1 G1 P1 I1 H2 G2 I2 Hsm. apply (scripts_same_model_same_generate ops1 ops2 ms1 ms2); auto.
-  pose proof (reachable_params_distinct_partial _ _ H1 P1) as Hall. rewrite Forall_forall in Hall. now apply Hall.
+  pose proof (reachable_params_distinct _ _ H1 P1) as Hall. rewrite Forall_forall in Hall. now apply Hall.
 Qed.
 
-Example two_scripts_pd_ok : script_pd_ok ex_ops_a = true /\ script_pd_ok ex_ops_b = true.
+Example two_scripts_pd_ok : script_pd_ok' ex_ops_a = true /\ script_pd_ok' ex_ops_b = true.
 Proof. vm_compute. split; reflexivity. Qed.
+
+(** the three scripts of (2) are refused by the guard: repeated parent ([NoDup parents]), index
+    reuse after a removal and the explicit index ([edge_guard]) *)
+Example refuted_scripts_refused :
+  script_pd_ok' [ EAddNode 0 "t" (st_prior "t") [] None; EAddNode 0 "u" (st_prior "u") [] None;
+                  EAddNode 0 "o" (st_op "o") ["t"; "t"; "u"] None ] = false
+  /\ script_pd_ok' [ EAddNode 0 "t" (st_prior "t") [] None; EAddNode 0 "u" (st_prior "u") [] None;
+                     EAddNode 0 "v" (st_prior "v") [] None;
+                     EAddNode 0 "o" (st_op "o") ["t"; "u"] None;
+                     ERemove 0 "t"; EAddEdge 0 "v" "o" None ] = false
+  /\ script_pd_ok' [ EAddNode 0 "t" (st_prior "t") [] None; EAddNode 0 "u" (st_prior "u") [] None;
+                     EAddNode 0 "o" (st_op "o") ["t"] None; EAddEdge 0 "u" "o" (Some (PInt 0)) ] = false.
+Proof. vm_compute. repeat split. Qed.
